@@ -135,6 +135,20 @@ pub fn collect(specs: &[Spec], depth_deep: bool, extra_presentations: u64) -> (V
                     }
                 }
             }
+            Spec::GP(sc) => {
+                let rhss = all_rhs(sc.n, sc.t, sc.k);
+                let mut grs = vec![];
+                for unit in work_units(sc, u128::MAX) {
+                    for_each_completion(sc, &rhss, &unit, &mut |gr| grs.push(gr));
+                }
+                for gr in grs {
+                    let mut ps = vec![];
+                    for_each_presentation(&gr, &mut |pres| ps.push(pres));
+                    for pres in ps {
+                        add_with(gr.clone(), pres, &mut out, &mut n);
+                    }
+                }
+            }
             Spec::Scaled { deep } => {
                 for (i, f) in crate::scaled::families(*deep).iter().enumerate() {
                     n += 1;
